@@ -254,6 +254,19 @@ func (s *Session) Step(st *Step) error {
 			return err
 		}
 		s.NonTriv = true
+	case "lsm":
+		// environment step: badger compacts its LSM tree (no hub API involved).  Eight small tables are
+		// produced by private writes + restarts, the background compactors merge them.
+		for i := 0; i < 8; i++ {
+			if err := s.W.Store.StoreObject(server.JobDataIndex, "verif-lsm-filler", i); err != nil {
+				return err
+			}
+			if err := s.W.Restart(); err != nil {
+				return err
+			}
+		}
+		s.W.Store.VerifLsmCompact()
+		s.NonTriv = true
 	case "compact":
 		if err := s.compact(s.DsReal(st.Ds)); err != nil {
 			return err
